@@ -108,11 +108,11 @@ def boot(quiet=True):
     cache_root = os.path.join(VERIF_DIR, ".cache")
     cache_dir = os.path.join(cache_root, "numba-" + TREE_HASH)
     os.makedirs(cache_dir, exist_ok=True)
-    # prune old cache dirs (keep the 6 most recent)
+    # prune old cache dirs (keep the 16 most recent)
     try:
         ds = [os.path.join(cache_root, d) for d in os.listdir(cache_root) if d.startswith("numba-")]
         ds.sort(key=lambda p: os.path.getmtime(p), reverse=True)
-        for old in ds[6:]:
+        for old in ds[16:]:
             if old != cache_dir:
                 shutil.rmtree(old, ignore_errors=True)
         os.utime(cache_dir, None)
